@@ -425,11 +425,15 @@ def judge_env(ops, lines, S, case):
 
 
 def _work(arg):
-    tier, seed, chunk, nch, exe, libs = arg
+    tier, seed, chunk, nch, exe, libs = arg[:6]
+    memcheck = len(arg) > 6
     rng = random.Random("c19-%d-%d" % (seed, chunk))
     S = optrun.Summary()
     ndl = (5000 if tier == "quick" else 200000) // nch
     nenv = (2000 if tier == "quick" else 50000) // nch
+    if memcheck:
+        # a sample under valgrind memcheck on the uninstrumented build (use of uninitialised values)
+        ndl, nenv = (80, 80) if tier == "quick" else (600, 400)
     cases = []
     for i in range(ndl):
         ops = gen_dl(rng, 30)
@@ -453,7 +457,10 @@ def _work(arg):
         ops = gen_env(rng, 12)
         cases.append(("e%d_%d" % (chunk, i), "env", ops))
     scripts = [(cid, dl_script(cid, ops) if kind == "dl" else env_script(cid, ops)) for cid, kind, ops in cases]
-    res = driver.run_cases(exe, scripts, args=libs)
+    res = driver.run_cases(exe, scripts, args=libs,
+                           wrapper=driver.MEMCHECK if memcheck else ())
+    if memcheck:
+        S.counters["histories-under-memcheck"] += len(cases)
     if "__process__" in res:
         r = res["__process__"]
         S.violation("outside-case:" + r.key, r.report[-3000:], {"chunk": chunk})
@@ -463,6 +470,10 @@ def _work(arg):
         case = {"kind": kind, "ops": [list(o) for o in ops], "build": "plain" if "-plain-" in exe else "gasan"}
         if r is None:
             S.inconc.append("case not executed")
+            continue
+        if r.status == "skipped":
+            S.counters["cases-skipped-after-enough-failed-cases"] += 1
+            S.n -= 1
             continue
         if r.status != "ok":
             if r.status == "watchdog":
@@ -563,6 +574,9 @@ def run(tier, replay=None):
                                 link=["-Wl,--wrap=dlopen,--wrap=dlclose,--wrap=dlsym,--wrap=dlerror", "-rdynamic", "-ldl"])
         jobs = [(tier, run_.seed, c, n, exe, libs) for c in range(n)] + \
                [(tier, run_.seed, c, n, plain, libs) for c in range(0, n, 4)]
+        import shutil
+        if shutil.which("valgrind"):
+            jobs.append((tier, run_.seed, 1, n, plain, libs, "memcheck"))
         for part in optrun.pmap(_work, jobs):
             S.merge(part)
     sec = {}
@@ -570,6 +584,8 @@ def run(tier, replay=None):
         sec = secure_exec_phase(run_, S, run_.seed)
     for key, what, case in S.viol:
         run_.violation(key, what, case)
+    if S.counters.get("cases-skipped-after-enough-failed-cases", 0) and not S.viol:
+        run_.inconc("cases were skipped after many failed cases, but no violation was recorded")
     for r in S.inconc[:3]:
         run_.inconc(r)
     for s in S.samples:
